@@ -1,4 +1,4 @@
-"""C07 -- import tidying never changes what a name means (R07.1-R07.15)."""
+"""C07 -- import tidying never changes what a name means (R07.1-R07.16)."""
 from __future__ import annotations
 
 import ast
@@ -47,6 +47,33 @@ def check(ctx, res) -> None:
 
     prefix_boundary_rule(ctx, res, "R07.8", ["rope.refactor.importutils.actions.AddingVisitor.visitNormalImport"])
     _qualifier_gap_rule(ctx, res)
+    _use_regardless_of_ctx_rule(ctx, res)
+
+
+def _use_regardless_of_ctx_rule(ctx, res) -> None:
+    """R07.16: whether an import is USED is decided by the names that occur in the module -- in any expression context.
+    `total += 1` and `del plugin` have Store / Del context and still need the binding the import made; a name that only
+    occurs that way must count.  The unbound-name finder's Name handler records a name without looking at `node.ctx`."""
+    from ..cfg import CFG
+    from .common import with_private_helpers
+
+    idx = ctx.idx
+    f = idx.need_func("rope.refactor.importutils.module_imports._UnboundNameFinder._Name")
+    n = 0
+    for g in with_private_helpers(idx, f):
+        cfg = CFG(g.node)
+        for nd in cfg.nodes:
+            if nd.ast is None or nd.kind != "stmt" or not any(call_name(c) == "add_unbound" for c in calls_in(nd.ast)):
+                continue
+            n += 1
+            ctx_tests = [t for t, pol in cfg.guards(nd.id) if any(isinstance(y, ast.Attribute) and y.attr == "ctx" for y in ast.walk(t))]
+            ok = not ctx_tests
+            res.add("R07.16", f"_UnboundNameFinder.{g.name}|any-context#{n}", ok, f"{g.unit.rel}:{nd.lineno}",
+                    "a name is recorded as used whatever its expression context" if ok else
+                    f"a name is recorded as used only under `{ast.unparse(ctx_tests[0])}`: the target of an augmented assignment (`total += 1`) or of `del` is not a "
+                    "Load, so an imported name that is only used that way counts as unused and organize-imports deletes its import (NameError at run time)",
+                    function=g.qualname)
+    res.floor("R07.16", "places where the unbound-name finder records a plain name", n, 1)
 
 
 def _qualifier_gap_rule(ctx, res) -> None:
